@@ -88,6 +88,7 @@ func TestC10(t *testing.T) {
 	wssSNI(r)
 	subnetSpellings(r)
 	subnetSpellingsAcrossRestart(r)
+	oddMasks(r)
 	crashPoints(r)
 	datastoreErrors(r)
 	loadErrors(r)
@@ -383,6 +384,66 @@ func subnetSpellingsAcrossRestart(r *run.R) {
 			continue
 		}
 		r.Count("spelling_restart.unblock_effective", 1)
+	}
+}
+
+// oddMasks: BlockSubnet takes any *net.IPNet, also one whose mask is not a prefix (255.0.0.255). If the
+// call returns success the subnet is blocked: enforced live and - if the gater can be reopened at all;
+// refusing to start on a rule it cannot read back is fail-stop and only counted - after a restart.
+func oddMasks(r *run.R) {
+	type tc struct {
+		name   string
+		ip     net.IP
+		mask   net.IPMask
+		inside string
+	}
+	for _, c := range []tc{
+		{"v4-255.0.0.255", net.IPv4(127, 0, 0, 1).To4(), net.IPMask{255, 0, 0, 255}, "/ip4/127.44.9.1/tcp/4001"},
+		{"v4-0.255.255.0", net.IPv4(10, 1, 2, 3).To4(), net.IPMask{0, 255, 255, 0}, "/ip4/99.1.2.7/tcp/4001"},
+	} {
+		caseID := "fn/odd-subnet-mask/" + c.name
+		if !r.Want(caseID) {
+			continue
+		}
+		r.Eval(1)
+		arg := &net.IPNet{IP: c.ip, Mask: c.mask}
+		probe := mustMA(c.inside)
+		cm := &cmaddrs{local: localMA, remote: probe}
+		detail := map[string]any{"subnet_arg": arg.String(), "probe": c.inside}
+		rec := newRecDS()
+		g, err := conngater.NewBasicConnectionGater(rec)
+		if err != nil {
+			r.Inconclusive(caseID, err.Error())
+			continue
+		}
+		// a second, ordinary rule stored next to it must survive whatever happens to the odd one
+		_, ordinary, _ := net.ParseCIDR("203.0.113.0/24")
+		ordProbe := mustMA("/ip4/203.0.113.9/tcp/4001")
+		g.BlockSubnet(ordinary)
+		if err := g.BlockSubnet(arg); err != nil {
+			r.Count("odd_mask.block_returned_error", 1)
+			continue
+		}
+		if g.InterceptAddrDial(allPeers[0], probe) || g.InterceptAccept(cm) {
+			r.Violation("live/odd-subnet-mask/admitted-blocked", caseID, fmt.Sprintf("BlockSubnet(%s) returned success but %s is allowed", arg, c.inside), detail)
+			continue
+		}
+		r.Count("odd_mask.enforced_live", 1)
+		g2, err := reopen(rec.snapshot())
+		if err != nil {
+			r.Count("odd_mask.reopen_refused(fail-stop)", 1)
+			continue
+		}
+		if g2.InterceptAddrDial(allPeers[0], probe) || g2.InterceptAccept(cm) {
+			r.Violation("reopen/odd-subnet-mask/admitted-blocked", caseID,
+				fmt.Sprintf("BlockSubnet(%s) returned success; the gater reopened without error on the same datastore and %s is allowed (ListBlockedSubnets=%v)", arg, c.inside, g2.ListBlockedSubnets()), detail)
+			continue
+		}
+		if g2.InterceptAddrDial(allPeers[0], ordProbe) {
+			r.Violation("reopen/odd-subnet-mask/other-rule-lost", caseID, "an ordinary subnet rule stored next to the odd one is no longer enforced after reopening", detail)
+			continue
+		}
+		r.Count("odd_mask.enforced_after_reopen", 1)
 	}
 }
 
